@@ -360,6 +360,7 @@ func (c *Chain) AddBlock(tsDelta uint64, txs ...*transaction.Transaction) *block
 	}
 	b.RebuildMerkleRoot()
 	b.Script.InvocationScript = c.Validators.SignHashable(uint32(c.BC.GetConfig().Magic), b)
+	c.coverShadow(b)
 	if err := c.BC.AddBlock(b); err != nil {
 		panic(Failure{Msg: fmt.Sprintf("chainkit: AddBlock: %v", err)})
 	}
@@ -462,6 +463,9 @@ func (c *Chain) testRunInspect(tx *transaction.Transaction, ts uint64, inspect f
 	}
 	defer ic.Finalize()
 	ic.VM.GasLimit = 2000_0000_0000
+	if coverDir != "" {
+		ic.VM.SetOnExecHook(c.coverHook(ic))
+	}
 	ic.VM.LoadWithFlags(tx.Script, callflag.All)
 	err = ic.VM.Run()
 	o := &Outcome{Gas: ic.VM.GasConsumed(), Time: ts}
